@@ -330,6 +330,27 @@ theorem deriveBlindingFactor_valid (M : Nat → Point → Point) (seed id : Byte
   have := fromSeed_valid M seed _ hk
   exact ⟨this.1, this.2.1⟩
 
+theorem secretPath_counter_inj (id : Bytes) (c c' : Nat) (h : secretPath id c = secretPath id c') : c = c' := by
+  have := congrArg (fun l => l.getD 3 0) h
+  simp only [secretPath, keysetPath, hardened] at this
+  simpa using this
+
+theorem blindingFactorPath_counter_inj (id : Bytes) (c c' : Nat)
+    (h : blindingFactorPath id c = blindingFactorPath id c') : c = c' := by
+  have := congrArg (fun l => l.getD 3 0) h
+  simp only [blindingFactorPath, keysetPath, hardened] at this
+  simpa using this
+
+theorem secretPath_ne_blindingFactorPath (id id' : Bytes) (c c' : Nat) :
+    secretPath id c ≠ blindingFactorPath id' c' := by
+  intro h
+  have := congrArg (fun l => l.getD 4 7) h
+  simp [secretPath, blindingFactorPath, keysetPath] at this
+
+theorem p2pkPath_ne (id : Bytes) (c : Nat) : p2pkPath ≠ secretPath id c ∧ p2pkPath ≠ blindingFactorPath id c := by
+  constructor <;> intro h <;> have := congrArg List.length h <;>
+    simp [p2pkPath, secretPath, blindingFactorPath, keysetPath] at this
+
 end Nut13
 
 /-! ## mint keys -/
